@@ -693,6 +693,8 @@ def run(ctx):
                 for by in (False, True):
                     if by and any(ord(c) > 255 for c in txt):
                         continue
+                    if by and mode != "narrow" and any(ord(c) > 127 for c in txt):
+                        continue  # a lone high byte is not well-formed text in utf-8 / a double-byte encoding
                     if not by and mode != "utf8":
                         # a str control character is 0 columns by the str width table but one column once encoded
                         # to a single byte: the design-level mismatch recorded as a known finding under C04
